@@ -188,7 +188,9 @@ def tomo_oracle(args):
 def search(ctx):
     plan = [dict(seed=1, L=2, segments=[0.2], solver="TJM"), dict(seed=2, L=3, segments=[0.15], solver="TJM"),
             dict(seed=3, L=2, segments=[0.1], solver="MCWF"), dict(seed=4, L=2, segments=[0.1, 0.15], solver="TJM"),
-            dict(seed=5, L=2, segments=[0.3], solver="MCWF", dt=0.1)]
+            dict(seed=5, L=2, segments=[0.3], solver="MCWF", dt=0.1),
+            # the dense back-end with intermediate interventions (re-preparation of an evolved, complex state)
+            dict(seed=6, L=2, segments=[0.1, 0.1], solver="MCWF"), dict(seed=7, L=3, segments=[0.2, 0.1], solver="MCWF", dt=0.1)]
     if not ctx.quick:
         plan += [dict(seed=int(ctx.rng.integers(0, 2**31)), L=int(ctx.rng.integers(2, 4)), segments=[0.1, 0.1] if k % 3 == 0 else [round(int(ctx.rng.integers(1, 7)) * 0.05, 2)] if k % 3 == 1
                       else [float(ctx.rng.uniform(0.05, 0.3))],
